@@ -44,6 +44,10 @@ type halfPipe struct {
 	closed bool
 	rec    *[]byte // everything ever written (what the relay sees)
 	frag   func() int
+	// lazy: like net.Pipe, Write returns only when a reader has taken the bytes, and the bytes are
+	// copied out of the writer's slice at that moment (a writer that reuses the memory meanwhile shows)
+	lazy    bool
+	pending []byte
 }
 
 func newHalfPipe() *halfPipe {
@@ -57,6 +61,26 @@ func (h *halfPipe) Write(p []byte) (int, error) {
 	if h.closed {
 		return 0, io.ErrClosedPipe
 	}
+	if h.lazy {
+		for h.pending != nil && !h.closed { // one writer at a time
+			h.cond.Wait()
+		}
+		h.pending = p
+		h.cond.Broadcast()
+		for len(h.pending) > 0 && !h.closed {
+			h.cond.Wait()
+		}
+		left := len(h.pending)
+		h.pending = nil
+		h.cond.Broadcast()
+		if left > 0 {
+			return len(p) - left, io.ErrClosedPipe
+		}
+		if h.rec != nil {
+			*h.rec = append(*h.rec, p...)
+		}
+		return len(p), nil
+	}
 	h.buf = append(h.buf, p...)
 	if h.rec != nil {
 		*h.rec = append(*h.rec, p...)
@@ -67,6 +91,18 @@ func (h *halfPipe) Write(p []byte) (int, error) {
 func (h *halfPipe) Read(p []byte) (int, error) {
 	h.mu.Lock()
 	defer h.mu.Unlock()
+	if h.lazy {
+		for len(h.pending) == 0 && !h.closed {
+			h.cond.Wait()
+		}
+		if len(h.pending) == 0 {
+			return 0, io.EOF
+		}
+		n := copy(p, h.pending)
+		h.pending = h.pending[n:]
+		h.cond.Broadcast()
+		return n, nil
+	}
 	for len(h.buf) == 0 && !h.closed {
 		h.cond.Wait()
 	}
@@ -319,6 +355,8 @@ func TestGenC08(t *testing.T) {
 		q.stat(fmt.Sprintf("rotations_%d", (2*nrec[0])/1000+(2*nrec[1])/1000), 1)
 		q.sample(fmt.Sprintf("scenario %d: %s handshake, %d + %d records interleaved, sizes {0,1,2,17,33,100,marker,65535}", sc, map[bool]string{false: "XX", true: "KK"}[kk], nrec[0], nrec[1]))
 	}
+	// the two directions at the same time on each endpoint (a pending outgoing record while the reader is at work)
+	duplexCases(q, r, scale(6, 100), "c08:directions-interfere")
 }
 
 // ---- C02: adversarial edits of the ciphertext stream ------------------------------
